@@ -17,8 +17,12 @@ import (
 	"io"
 	"os"
 	"sync"
+	"sync/atomic"
+	"time"
 
 	"github.com/jdillenkofer/pithos/internal/storage"
+	"github.com/jdillenkofer/pithos/internal/storage/database"
+	"github.com/jdillenkofer/pithos/internal/verifhook"
 	"github.com/jdillenkofer/pithos/verifharness/pdrv"
 	"github.com/jdillenkofer/pithos/verifharness/stacks"
 	"github.com/jdillenkofer/pithos/verifharness/vtrace"
@@ -35,10 +39,67 @@ type step struct {
 	C  string `json:"c"`
 	Op op     `json:"op"`
 }
-type round struct {
-	ID  int    `json:"id"`
-	Ops []step `json:"ops"`
+type phase struct {
+	Hold bool   `json:"hold"`
+	Ops  []step `json:"ops"`
 }
+type round struct {
+	ID     int     `json:"id"`
+	Ops    []step  `json:"ops"`
+	Phases []phase `json:"phases"`
+}
+
+// gate parks the first non-read-only transaction that reaches its SQL COMMIT after arm():
+// the call keeps the database writer while parked, so calls started meanwhile run whatever
+// they do BEFORE their own write transaction against the pre-commit state and then queue for
+// the writer. This forces the schedule Invoke(H) Invoke(others) Lin(H) Lin(others) of
+// CondWrite.tla; the verdict never depends on it (TLC searches a linearisation of whatever
+// was recorded), only the coverage of check-then-act windows does.
+type gate struct {
+	armed   atomic.Bool
+	parked  chan struct{}
+	release chan struct{}
+}
+
+func (g *gate) arm() {
+	g.parked, g.release = make(chan struct{}), make(chan struct{})
+	g.armed.Store(true)
+}
+
+func (g *gate) handler(point string, fault bool, kv []any) error {
+	if point != "tx.sqlcommit" || len(kv) == 0 {
+		return nil
+	}
+	if tc, ok := kv[0].(*database.TxController); !ok || tc.ReadOnly() {
+		return nil
+	}
+	if g.armed.CompareAndSwap(true, false) {
+		close(g.parked)
+		<-g.release
+	}
+	return nil
+}
+
+// slowBody delivers the request body after a short pause. Bodies are streamed INSIDE the write
+// transaction, so this widens the window in which other calls run their own reads while a write is
+// in flight (a slow client); it makes races between a call's pre-checks and another call's commit
+// likely without making any verdict depend on timing.
+type slowBody struct {
+	r    io.Reader
+	done bool
+}
+
+func (s *slowBody) Read(p []byte) (int, error) {
+	if !s.done {
+		s.done = true
+		time.Sleep(3 * time.Millisecond)
+	}
+	return s.r.Read(p)
+}
+
+const holdFor = 15 * time.Millisecond
+
+func body(b []byte) io.Reader { return &slowBody{r: bytes.NewReader(b)} }
 
 func must(err error) {
 	if err != nil {
@@ -62,6 +123,8 @@ func main() {
 	must(err)
 	f, err := os.Open(os.Args[3])
 	must(err)
+	g := &gate{}
+	verifhook.SetHandler(g.handler)
 	ctx := context.Background()
 	bucket := storage.MustNewBucketName("cwbucket")
 	must(st.CreateBucket(ctx, bucket))
@@ -74,20 +137,12 @@ func main() {
 		nr++
 		key := storage.MustNewObjectKey(fmt.Sprintf("k%d", r.ID))
 		w.Emit(map[string]any{"t": "reset", "round": r.ID})
-		// split into per-client scripts, assigning each write a distinguishable blob name
-		scripts := map[string][]op{}
+		phases := r.Phases
+		if len(phases) == 0 {
+			phases = []phase{{Ops: r.Ops}}
+		}
 		names := map[string][]byte{} // blob name -> bytes
 		n := 0
-		for _, s := range r.Ops {
-			o := s.Op
-			if o.Kind == "Put" || o.Kind == "Append" {
-				n++
-				name := fmt.Sprintf("%s%d", o.Blob, n)
-				names[name] = token(o.Blob, n)
-				o.Blob = name
-			}
-			scripts[s.C] = append(scripts[s.C], o)
-		}
 		decode := func(data []byte) []string {
 			out := []string{}
 			for len(data) >= 3 {
@@ -105,75 +160,118 @@ func main() {
 			}
 			return out
 		}
-		var wg sync.WaitGroup
-		start := make(chan struct{})
-		for c, ops := range scripts {
-			wg.Add(1)
-			go func(c string, ops []op) {
-				defer wg.Done()
-				<-start
-				known := "" // ETag token last learnt by this client
-				for _, o := range ops {
-					lo := o
-					if lo.Cond == "ifm" {
-						lo.Seen = known
-					}
-					w.Emit(map[string]any{"t": "inv", "c": c, "op": map[string]any{"kind": lo.Kind, "blob": lo.Blob, "cond": lo.Cond, "seen": lo.Seen, "off": lo.Off}})
-					res := map[string]any{"err": "", "etag": "", "size": 0, "content": []string{}}
-					switch lo.Kind {
-					case "Put":
-						opts := &storage.PutObjectOptions{IfNoneMatchStar: lo.Cond == "inm"}
-						if lo.Cond == "ifm" {
-							e := lo.Seen
-							opts.IfMatchETag = &e
-						}
-						r, err := st.PutObject(ctx, bucket, key, nil, bytes.NewReader(names[lo.Blob]), nil, opts)
-						res["err"] = pdrv.ErrKind(err)
-						if err == nil {
-							res["etag"], res["size"] = *r.ETag, 3
-						}
-					case "Delete":
-						opts := &storage.DeleteObjectOptions{}
-						if lo.Cond == "ifm" {
-							e := lo.Seen
-							opts.IfMatchETag = &e
-						}
-						_, err := st.DeleteObject(ctx, bucket, key, opts)
-						res["err"] = pdrv.ErrKind(err)
-					case "Append":
-						var opts *storage.AppendObjectOptions
-						if lo.Off >= 0 {
-							off := int64(lo.Off)
-							opts = &storage.AppendObjectOptions{WriteOffset: &off}
-						}
-						r, err := st.AppendObject(ctx, bucket, key, bytes.NewReader(names[lo.Blob]), nil, opts)
-						res["err"] = pdrv.ErrKind(err)
-						if err == nil {
-							res["etag"], res["size"] = r.ETag, int(r.Size)
-						}
-					case "Get":
-						o, rs, err := st.GetObject(ctx, bucket, key, nil, nil)
-						res["err"] = pdrv.ErrKind(err)
-						if err == nil {
-							var buf bytes.Buffer
-							for _, rc := range rs {
-								if _, cerr := io.Copy(&buf, rc); cerr != nil {
-									res["err"] = "readerr:" + cerr.Error()
-								}
-								rc.Close()
-							}
-							res["etag"], res["size"], res["content"] = o.ETag, int(o.Size), decode(buf.Bytes())
-						}
-					}
-					if res["err"] == "" && lo.Kind != "Delete" {
-						known = res["etag"].(string)
-					}
-					w.Emit(map[string]any{"t": "ret", "c": c, "res": res})
+		known := map[string]string{} // client -> ETag token last learnt
+		var kmu sync.Mutex
+		runScript := func(c string, ops []op) {
+			for _, o := range ops {
+				lo := o
+				kmu.Lock()
+				kn := known[c]
+				kmu.Unlock()
+				if lo.Cond == "ifm" {
+					lo.Seen = kn
 				}
-			}(c, ops)
+				w.Emit(map[string]any{"t": "inv", "c": c, "op": map[string]any{"kind": lo.Kind, "blob": lo.Blob, "cond": lo.Cond, "seen": lo.Seen, "off": lo.Off}})
+				res := map[string]any{"err": "", "etag": "", "size": 0, "content": []string{}}
+				switch lo.Kind {
+				case "Put":
+					opts := &storage.PutObjectOptions{IfNoneMatchStar: lo.Cond == "inm"}
+					if lo.Cond == "ifm" {
+						e := lo.Seen
+						opts.IfMatchETag = &e
+					}
+					r, err := st.PutObject(ctx, bucket, key, nil, body(names[lo.Blob]), nil, opts)
+					res["err"] = pdrv.ErrKind(err)
+					if err == nil {
+						res["etag"], res["size"] = *r.ETag, 3
+					}
+				case "Delete":
+					opts := &storage.DeleteObjectOptions{}
+					if lo.Cond == "ifm" {
+						e := lo.Seen
+						opts.IfMatchETag = &e
+					}
+					_, err := st.DeleteObject(ctx, bucket, key, opts)
+					res["err"] = pdrv.ErrKind(err)
+				case "Append":
+					var opts *storage.AppendObjectOptions
+					if lo.Off >= 0 {
+						off := int64(lo.Off)
+						opts = &storage.AppendObjectOptions{WriteOffset: &off}
+					}
+					r, err := st.AppendObject(ctx, bucket, key, body(names[lo.Blob]), nil, opts)
+					res["err"] = pdrv.ErrKind(err)
+					if err == nil {
+						res["etag"], res["size"] = r.ETag, int(r.Size)
+					}
+				case "Get":
+					o, rs, err := st.GetObject(ctx, bucket, key, nil, nil)
+					res["err"] = pdrv.ErrKind(err)
+					if err == nil {
+						var buf bytes.Buffer
+						for _, rc := range rs {
+							if _, cerr := io.Copy(&buf, rc); cerr != nil {
+								res["err"] = "readerr:" + cerr.Error()
+							}
+							rc.Close()
+						}
+						res["etag"], res["size"], res["content"] = o.ETag, int(o.Size), decode(buf.Bytes())
+					}
+				}
+				if res["err"] == "" && lo.Kind != "Delete" {
+					kmu.Lock()
+					known[c] = res["etag"].(string)
+					kmu.Unlock()
+				}
+				w.Emit(map[string]any{"t": "ret", "c": c, "res": res})
+			}
 		}
-		close(start)
-		wg.Wait()
+		for _, ph := range phases {
+			// split into per-client scripts, assigning each write a distinguishable blob name
+			scripts := map[string][]op{}
+			order := []string{}
+			for _, s := range ph.Ops {
+				o := s.Op
+				if o.Kind == "Put" || o.Kind == "Append" {
+					n++
+					name := fmt.Sprintf("%s%d", o.Blob, n)
+					names[name] = token(o.Blob, n)
+					o.Blob = name
+				}
+				if _, ok := scripts[s.C]; !ok {
+					order = append(order, s.C)
+				}
+				scripts[s.C] = append(scripts[s.C], o)
+			}
+			var wg sync.WaitGroup
+			if ph.Hold && len(order) >= 2 {
+				holder := order[0]
+				g.arm()
+				hdone := make(chan struct{})
+				wg.Add(1)
+				go func() { defer wg.Done(); defer close(hdone); runScript(holder, scripts[holder]) }()
+				select {
+				case <-g.parked:
+				case <-hdone: // the holder never reached a commit (rejected before writing)
+				}
+				for _, c := range order[1:] {
+					wg.Add(1)
+					go func(c string) { defer wg.Done(); runScript(c, scripts[c]) }(c)
+				}
+				time.Sleep(holdFor)
+				g.armed.Store(false)
+				close(g.release)
+				wg.Wait()
+				continue
+			}
+			start := make(chan struct{})
+			for _, c := range order {
+				wg.Add(1)
+				go func(c string) { defer wg.Done(); <-start; runScript(c, scripts[c]) }(c)
+			}
+			close(start)
+			wg.Wait()
+		}
 		fin := map[string]any{"t": "final", "exists": false, "content": []string{}, "etag": ""}
 		if o, rs, err := st.GetObject(ctx, bucket, key, nil, nil); err == nil {
 			var buf bytes.Buffer
